@@ -629,7 +629,7 @@ class Interp:
             idx = self.eval_index(t.slice, env)
             self.dom.on_index_use(self, idx, t)
             self.dom.on_write(self, "augassign-subscript", base, val, st)
-            self._weak_update(t.value, base, val, env, st)
+            self._weak_update(t.value, base, val, env, st, idx)
         elif isinstance(t, ast.Attribute):
             obj = self.eval(t.value, env)
             if obj.kind == "obj":
@@ -643,10 +643,16 @@ class Interp:
             raise Unsupported("augassign target")
         return env, False
 
-    def _weak_update(self, target_expr, base, val, env, st):
+    def _weak_update(self, target_expr, base, val, env, st, idx=None):
         """x[...] = v: the value annotation of x absorbs v (for value-tracking domains)."""
         if getattr(self.dom, "value_semantics", False) and getattr(self.dom, "store_updates_value", True) and isinstance(target_expr, ast.Name) and base.kind in ("tensor", "top"):
-            env.set(target_expr.id, AV(base.kind, None, self.dom.join_ann(base.ann, all_ann(self.dom, val)), base.maybe_none))
+            h2 = getattr(self.dom, "store_result", None)
+            if h2 is not None:
+                env.set(target_expr.id, AV(base.kind, None, frozenset(h2(self, base, idx, val, st)), base.maybe_none))
+                return
+            h = getattr(self.dom, "store_labels", None)
+            add = h(self, base, idx, val, st) if h is not None else all_ann(self.dom, val)
+            env.set(target_expr.id, AV(base.kind, None, self.dom.join_ann(base.ann, frozenset(add)), base.maybe_none))
 
     def assign(self, t, v, env, st):
         if isinstance(t, ast.Name):
@@ -672,7 +678,7 @@ class Interp:
             self.dom.on_index_use(self, idx, t)
             if base.kind in ("tensor", "top"):
                 self.dom.on_write(self, "subscript", base, v, st)
-                self._weak_update(t.value, base, v, env, st)
+                self._weak_update(t.value, base, v, env, st, idx)
             elif base.kind == "list":
                 items, elem = base.data
                 newv = LST(None, join(self.dom, list_elem(self.dom, base), v))
